@@ -162,3 +162,27 @@ Theorem C02_byte_level_two_sessions_over_any_buffer : forall t n bk bv bh ops1 b
             exists s'' l, load t (dh', dk', dv') = Ok s'' /\ contents s'' = Ok l /\
                           l ≡ₚ map_to_list (fst (spec_run ∅ (ops1 ++ ops2))).
 Proof. exact two_sessions_durable. Qed.
+
+(** ... and with FULL TRAVERSALS and STATISTICS calls in both sessions (Io_wsessions.v over Io_wrun.v): create (any buffer kinds),
+    any history of calls, traversals and statistics, the bytes a flush of any cache leaves; those bytes opened with any other
+    buffer kinds, any such history again: both sessions are served by any cache, every result is what the ideal map of that
+    moment says - a traversal after the reopen yields a permutation of what was there when the first session ended, updated by
+    the calls since - and the final files are [render] of the final state. *)
+From Aby Require Import Io_wrun Io_wsessions.
+Theorem C02_byte_level_two_sessions_with_traversals_over_any_buffer : forall t n bk bv bh ops1 bk' bv' bh' ops2,
+  (1 <= n)%N -> pow2 n -> Forall (wop_wf t) ops1 -> wsized (Store.create t n) ops1 ->
+  Forall (wop_wf t) ops2 ->
+  (forall s1 o1, wstore_run (Store.create t n) ops1 = Ok (s1, o1) -> wsized s1 ops2) ->
+  exists s1 outs1 m0 m1 mo st1 s2 outs2 m2,
+    let sp1 := wspec_run ∅ ops1 in
+    let st0 := Io.reopen_st (Io.fb (Io.s_key (Io.m_st m1))) (Io.fb (Io.s_val (Io.m_st m1))) (Io.fb (Io.s_htx (Io.m_st m1))) bk' bv' bh' in
+    Io.create t n bk bv bh = Ok m0 /\
+    wstore_run (Store.create t n) ops1 = Ok (s1, outs1) /\ wio_run m0 ops1 = Ok (m1, outs1) /\
+    wagree_run ∅ ops1 outs1 /\ render s1 = Ok (Io.images m1) /\
+    (exists cf1, forall f, served_by_cache (Io.empty_st bk bv bh) (Io.m_st m1) f (cf1 f)) /\
+    Io.open_existing t st0 = Ok (Io.Opened mo, st1) /\
+    wstore_run s1 ops2 = Ok (s2, outs2) /\ wio_run mo ops2 = Ok (m2, outs2) /\
+    wagree_run sp1 ops2 outs2 /\ render s2 = Ok (Io.images m2) /\
+    (exists cf2, forall f, served_by_cache st0 (Io.m_st m2) f (cf2 f)) /\
+    wf_state s2 /\ represents s2 (wspec_run sp1 ops2).
+Proof. exact two_wsessions_over_any_buffer. Qed.
